@@ -22,6 +22,7 @@ table untouched; the client socket is closed exactly once.
 This module also holds the rig shared with C11 (harness/props/c11.py).
 """
 import json
+import logging
 import socket
 
 from harness.core import PropSpec, Result, Violation, Ctx, run_model, CORPUS
@@ -35,6 +36,8 @@ from bobocep.dist.device import BoboDevice
 from bobocep.dist.dist import BoboDistributedError, BoboDistributedSystemError, BoboDistributedTimeoutError
 from bobocep.dist.pubsub import BoboDistributedSubscriber
 from bobocep.dist.tcp import BoboDistributedTCP, _OutgoingJSONEncoder
+
+logging.disable(logging.CRITICAL)      # the accept loop logs every rejected client
 
 AES_KEY = '0123456789abcdef'
 OTHER_AES_KEY = 'fedcba9876543210'
@@ -664,8 +667,13 @@ def run_cases(ctx: Ctx, case_iter, res: Result, oracle=oracle_conn):
                 if len(conn['script']) > 1 or obs['out'] != 'accepted':
                     nontrivial = True
         if case.get('drain'):
+            queued = rig.qlen()
             err = rig.drain()
             res.count('drain_' + (err or 'ok'))
+            if len(rig.rec.calls) > queued:
+                res.violations.append(Violation('decider-reached-without-accepted-message',
+                                                '%d subscriber calls for %d accepted SYNC/RESYNC messages' % (len(rig.rec.calls), queued),
+                                                dict(case)))
         slim = {k: v for k, v in case.items() if k not in ('sealed', 'jsons', 'conns')}
         slim['n_conns'] = len(case['conns'])
         slim['scripts'] = [[(x[0], len(x[1]) // 2) if x[0] == 'c' else x[0] for x in c['script']][:8]
